@@ -827,18 +827,8 @@ impl<'s> Cursor<'s> {
     }
 
     #[inline]
-    fn is_end(&self) -> bool {
-        self.source.len() == self.current_offset
-    }
-
-    #[inline]
     fn position(&self) -> usize {
         self.current_offset
-    }
-
-    #[inline]
-    fn source(&self) -> &'s str {
-        self.source
     }
 }
 
@@ -1017,24 +1007,22 @@ fn parse_type(cursor: &mut Cursor, style: FormatStyle) -> Result<Type, Error> {
 
 fn parse_till<'s>(cursor: &mut Cursor<'s>, end_delim: u8) -> Result<&'s str, Error> {
     let start = cursor.position();
-    loop {
-        if cursor.advance_if(end_delim) {
-            break;
-        } else if cursor.is_end() {
-            return Err(Error::new(
-                ErrorKind::InvalidOperation,
-                format!(
-                    "incomplete format key at offset {}; missing closing '{}'",
-                    start, end_delim as char
-                ),
-            ));
-        } else {
+    // the delimiter is an ASCII character: the bytes before it are whole characters
+    match cursor.rest_bytes().iter().position(|&b| b == end_delim) {
+        Some(len) => {
+            let key = cursor.advance(len);
+            // don't include the closing delimiter
             cursor.advance(1);
+            Ok(key)
         }
+        None => Err(Error::new(
+            ErrorKind::InvalidOperation,
+            format!(
+                "incomplete format key at offset {}; missing closing '{}'",
+                start, end_delim as char
+            ),
+        )),
     }
-    // don't include the closing delimiter
-    let end = cursor.position() - 1;
-    Ok(&cursor.source()[start..end])
 }
 
 mod printf_style {
